@@ -203,4 +203,69 @@ def reads : List Step → List Read
   | .read r :: rest => r :: reads rest
   | .load _ :: rest => reads rest
 
+/-! ### Pony's concrete loaders, as compositions of the primitives -/
+
+/-- the part of the mapping the loaders consult -/
+structure Schema where
+  /-- the column attributes a full row fetch of this object brings (all non-lazy attributes of its entity: `_construct_select_clause_`) -/
+  rowAttrs : Oid → List Attr
+  /-- for a reference attribute whose reverse is a collection: that collection attribute (`attr.reverse`, `reverse.is_collection`) -/
+  revColl : Attr → Option Attr
+  /-- for a reference attribute whose reverse is a single reference (one-to-one): that attribute (`db_update_reverse` → `reverse.db_set(target, obj)`) -/
+  revOne : Attr → Option Attr
+  /-- for a many-to-many collection attribute: the collection attribute on the other side -/
+  revM2M : Attr → Attr
+
+/-- `Entity._db_set_` of one fetched row restricted to `attrs`: every attribute not loaded yet is set, and for a reference whose
+    reverse is a collection `db_update_reverse` → `reverse.db_reverse_add((target,), obj)` puts the object into the target's partial set -/
+def rowLoads (db : Db) (sch : Schema) (o : Oid) (attrs : List Attr) : List Load :=
+  Load.vals (attrs.map (fun a => (o, a))) ::
+  attrs.filterMap (fun a => match sch.revColl a, db.val o a with
+    | some r, some t => some (Load.items t.toNat r [o])
+    | _, _ => none) ++
+  attrs.filterMap (fun a => match sch.revOne a, db.val o a with
+    | some r, some t => some (Load.vals [(t.toNat, r)])
+    | _, _ => none)
+
+inductive Loader where
+  /-- `Entity._load_` / `_load_many_` / `_prefetch_load_all_` / `_fetch_objects` of a query: full rows of these objects (the object and the
+      other seeds of its entity, a batch, a query result) -/
+  | rows (os : List Oid)
+  /-- `Attribute.load` of a lazy attribute, `Entity.load(attr)` -/
+  | lazyAttr (o : Oid) (a : Attr)
+  /-- `Set.load` / `prefetch_load_all` of a one-to-many collection for a batch of owners (one owner, or the nplus1 batch): the member rows
+      are fetched in full — each links itself to its owner through the reverse reference — then every owner's set is marked fully loaded -/
+  | collRows (owners : List Oid) (c : Attr)
+  /-- the same for a many-to-many collection: the link rows yield the members as seeds; `reverse.db_reverse_add(items, owner)` -/
+  | collLinks (owners : List Oid) (c : Attr)
+  deriving Repr
+
+/-- the primitives a loader performs, in order -/
+def expand (db : Db) (sch : Schema) : Loader → List Load
+  | .rows os => (os.map (fun o => rowLoads db sch o (sch.rowAttrs o))).flatten
+  | .lazyAttr o a => rowLoads db sch o [a]
+  | .collRows owners c =>
+    (owners.map (fun w => ((canon db (db.coll w c)).map (fun i => rowLoads db sch i (sch.rowAttrs i))).flatten)).flatten ++
+      owners.map (fun w => Load.coll w c)
+  | .collLinks owners c =>
+    (owners.map (fun w => Load.coll w c :: (canon db (db.coll w c)).map (fun i => Load.items i (sch.revM2M c) [w]))).flatten
+
+def applyLoader (db : Db) (sch : Schema) (s : Sess) (l : Loader) : Sess := (expand db sch l).foldl (applyLoad db) s
+
+inductive LStep where
+  | read (r : Read)
+  | load (l : Loader)
+  deriving Repr
+
+/-- a program: reads with CONCRETE loaders anywhere in between -/
+def lrun (db : Db) (sch : Schema) : Sess → List LStep → List (Ans × How)
+  | _, [] => []
+  | s, .read r :: rest => let x := read db s r; (x.2.1, x.2.2) :: lrun db sch x.1 rest
+  | s, .load l :: rest => lrun db sch (applyLoader db sch s l) rest
+
+def lreads : List LStep → List Read
+  | [] => []
+  | .read r :: rest => r :: lreads rest
+  | .load _ :: rest => lreads rest
+
 end PonyVerif.Model.Loading
